@@ -269,6 +269,21 @@ def explicit_h_obs(before, after):
     return its_obs(after, only=old) + [len(new), S(don), S(rec), bad]
 
 
+def explicit_h_wiring(before, after):
+    """multiset of (donor, recipient) pairs, one per new explicit H atom of SynReactor._explicit_h (donor = the atom the
+    H is bonded to with order (1,0), recipient = order (0,1)); a malformed new atom contributes [-1, -1]"""
+    from ..tok import S
+    old = set(before.nodes)
+    pairs = []
+    for h in after.nodes:
+        if h in old:
+            continue
+        don = [u for u in after.neighbors(h) if tuple(after[u][h]["order"]) == (1, 0)]
+        rec = [u for u in after.neighbors(h) if tuple(after[u][h]["order"]) == (0, 1)]
+        pairs.append([int(don[0]), int(rec[0])] if len(don) == 1 and len(rec) == 1 else [-1, -1])
+    return S(pairs)
+
+
 def map_obs(m):
     from ..tok import S
     return S([[int(p), int(h)] for p, h in m.items()])
@@ -400,6 +415,64 @@ def cbg_iso(A, B):
     return GraphMatcher(A, B, node_match=lambda a, b: a["lab"] == b["lab"], edge_match=lambda a, b: a["d"] == b["d"]).is_isomorphic()
 
 
+def h_transfer_groups(g):
+    """Hydrogens as ATOMS: every explicit H atom of an ITS graph links the heavy atoms to which it has a changed bond.
+    Returns (group, arcs): group[heavy atom] = id of its connected transfer group; arcs = [(donor, recipient)] for every
+    H atom with a broken bond to `donor` and a formed bond to `recipient`."""
+    parent = {}
+
+    def find(x):
+        parent.setdefault(x, x)
+        while parent[x] != x:
+            parent[x] = parent[parent[x]]
+            x = parent[x]
+        return x
+    arcs = []
+    for h in g.nodes:
+        if heavy(g, h):
+            continue
+        ch = [u for u in g.neighbors(h) if heavy(g, u) and g[h][u]["order"][0] != g[h][u]["order"][1]]
+        for u in ch:
+            find(u)
+        for u in ch[1:]:
+            parent[find(u)] = find(ch[0])
+        don = [u for u in ch if g[h][u]["order"][0] > 0 and g[h][u]["order"][1] == 0]
+        rec = [u for u in ch if g[h][u]["order"][0] == 0 and g[h][u]["order"][1] > 0]
+        arcs += [(d, r) for d in don for r in rec]
+    return {x: find(x) for x in parent}, arcs
+
+
+def wiring_ok(its, tpl, sign=1, limit=3000):
+    """Clause (c) with the migrating hydrogens as atoms, in the form every correct result satisfies: there is an
+    isomorphism of the changed-bond graphs (result -> template, the one `cbg_iso` asks for) under which every hydrogen
+    that moves in the result moves between two atoms of ONE hydrogen-transfer group of the template (a literal
+    isomorphism of the changed-bond graphs with H atoms as nodes implies this).  Returns (ok, witness arc)."""
+    _, arcs = h_transfer_groups(its)
+    if not arcs:
+        return True, None
+    tgroup, tarcs = h_transfer_groups(tpl)
+    if not tarcs:
+        return True, None          # the template writes its hydrogen changes implicitly: nothing to compare
+    A = changed_bond_graph(its)
+    B = changed_bond_graph(tpl, sign)
+    from networkx.algorithms.isomorphism import GraphMatcher
+    gm = GraphMatcher(A, B, node_match=lambda a, b: a["lab"] == b["lab"], edge_match=lambda a, b: a["d"] == b["d"])
+    bad = None
+    for i, phi in enumerate(gm.isomorphisms_iter()):
+        if i >= limit:
+            return True, None      # too symmetric to decide within the budget: no verdict
+        bad = None
+        for d, r in arcs:
+            if d in phi and r in phi:
+                gd, gr = tgroup.get(phi[d]), tgroup.get(phi[r])
+                if gd is None or gr is None or gd != gr:
+                    bad = (d, r)
+                    break
+        if bad is None:
+            return True, None
+    return (bad is None), bad
+
+
 def totals(g, sign=1):
     """(d total hydrogens, d total charge) product - reactant over all atoms of an ITS graph (explicit H atoms are
     atoms present on both sides: they cancel, only counts change)"""
@@ -457,4 +530,10 @@ def its_level_failures(host, tpl, its, invert):
         fails.append(("c", "changed-bond graph of the result (%r ; %r) is not isomorphic to the template's (%r ; %r)"
                       % (sorted(A.nodes(data="lab")), sorted((min(u, v), max(u, v), d) for u, v, d in A.edges(data="d")),
                          sorted(B.nodes(data="lab")), sorted((min(u, v), max(u, v), d) for u, v, d in B.edges(data="d")))))
+    else:
+        ok, arc = wiring_ok(its, tpl, sign)
+        if not ok:
+            fails.append(("c-wiring", "with the migrating hydrogens as atoms the changed-bond graph is not the template's: the explicit "
+                          "hydrogen that leaves atom %r (%s) ends on atom %r (%s), two atoms that exchange no hydrogen in the template"
+                          % (arc[0], its.nodes[arc[0]]["typesGH"][0][0], arc[1], its.nodes[arc[1]]["typesGH"][0][0])))
     return fails
